@@ -30,11 +30,12 @@ META = {
             "(the compiler engine leaves garbage in the upper half of the host-side uint64; counted in the evidence as dirty_i32_results).",
     "technique": "differential execution wazero(embedded, interpreter, compiler) vs V8 vs Lean 4 reference semantics + Lean proofs about the reference",
 }
-REQUIRED = ["rotr_rotl32", "rotr_rotl64", "div_s_trunc", "div_s_trap_iff", "rem_s_sign", "rem_s_min_neg_one", "shl_count_mod32", "shl_count_mod64",
-            "clz_eq_width_iff32", "clz_eq_width_iff64", "ctz_eq_width_iff", "wrap_extend_s", "wrap_extend_u", "extend_u_wrap",
+REQUIRED = ["rotr_rotl32", "rotr_rotl64", "div_s_trunc", "div_s_trap_iff", "rem_s_trap_iff", "rem_s_sign", "rem_s_min_neg_one",
+            "shl_count_mod32", "shl_count_mod64", "clz_eq_width_iff32", "clz_eq_width_iff64", "ctz_eq_width_iff",
+            "wrap_extend_s", "wrap_extend_u", "extend_u_wrap",
             "stepNum_eq_base", "exec_deterministic", "exec_append", "step_progress", "exec_total",
-            "readLE_writeLE", "writeLE_frame", "load_after_store", "load_trap_iff", "store_trap_iff",
-            "fillBytes_getD", "copyBytes_getD", "grow_ok", "grow_fail"]
+            "load_trap_iff", "store_trap_iff", "load_after_store", "load_after_store_i32", "load_after_store_i64", "load_after_store_full",
+            "store_frame", "writeLE_byte", "fill_trap_iff", "fill_spec", "copy_trap_iff", "copy_spec", "grow_ok", "grow_fail"]
 
 HERE = os.path.dirname(os.path.abspath(__file__))
 NODE_JS = os.path.join(vlib.VERIF, "harness", "c31", "node_engine.js")
